@@ -1,7 +1,8 @@
 """Registry: per property, the harnesses (solver queries), bounds and what lies outside them."""
 from .kani import H
 from .gentypes import gen_types
-from . import genpages
+from . import genpages, genframes
+from .regexshim import obligation_regex_validation
 
 
 class Prop:
@@ -448,3 +449,209 @@ def _c07():
 
 PROPS["C06"] = _c06()
 PROPS["C07"] = _c07()
+
+
+# ------------------------------------------------------------------------------------------- C01 / C02 / C03
+def fr_rules(n):
+    """Per-loop bounds for harnesses that run the real encoder/decoder on n data bytes."""
+    ln = 13 + 2 * n
+    return [
+        (r"run_utf8_validation\.1$", 2),
+        ("run_utf8_validation", 6),
+        ("from_ascii_bytes_radix|from_str_radix", 6),
+        ("Chunks", n + 3),
+        ("fold", n + 8),
+        ("to_bytes", n + 8),
+        ("ref_shape_end|ref_decode|ref_encode|frames::|bytes_eq|lemma_", ln + 3),
+        memcmp(ln + 3),
+        ("str_eq|span_by_name|Captures", 16),
+        ("from_iter|extend|collect|spec_", n + 3),
+    ]
+
+
+def _lemma_r(quick_names):
+    hs = []
+    for nm, lmax, tq, to, mem in [("r_upto16", 16, "quick", 600, 4), ("r_upto32", 32, "quick", 900, 4), ("r_upto64", 64, "quick", 1500, 6), ("r_upto140", 140, "thorough", 5400, 16)]:
+        hs.append(
+            H(
+                "gen_frames::" + nm,
+                "Lemma R: every byte string of length 0..=%d (length and all bytes symbolic): the matcher generated from frame.rs's pattern accepts it iff it has the documented shape, and every named group spans the documented field" % lmax,
+                tier=tq if nm in quick_names or tq == "thorough" else "thorough",
+                unwind=lmax + 3,
+                unwindset=[("str_eq|group_index|bytes_eq", 16)],
+                params={"max_len": lmax},
+                timeout=to,
+                mem_gb=max(12, mem * 2),
+                mem_expect=mem,
+                lemma="R",
+            )
+        )
+    for l in genframes.R_EXACT_T:
+        hs.append(
+            H(
+                "gen_frames::r_exact%d" % l,
+                "Lemma R for every byte string of exactly %d bytes" % l,
+                tier="thorough",
+                unwind=l + 3,
+                unwindset=[("str_eq|group_index|bytes_eq", 16)],
+                params={"len": l},
+                timeout=3600,
+                mem_gb=24,
+                mem_expect=10,
+                lemma="R",
+            )
+        )
+    return hs
+
+
+def _enc(ns_q, ns_t, owned=True):
+    hs = []
+    for n in ns_q + ns_t:
+        hs.append(
+            H(
+                "gen_frames::enc_n%d" % n,
+                "enc: frame with %d borrowed data bytes, address/type/data symbolic: to_bytes and to_bytes_with_newline equal the reference encoding byte for byte" % n,
+                tier="quick" if n in ns_q else "thorough",
+                unwind=6,
+                unwindset=fr_rules(n),
+                params={"data_len": n},
+                timeout=3000,
+                mem_gb=24 if n > 100 else 12,
+                mem_expect=12 if n > 100 else 3,
+                lemma="B",
+            )
+        )
+    if owned:
+        for n in [0, 1, 16, 255]:
+            hs.append(H("gen_frames::enc_owned_n%d" % n, "enc with %d owned data bytes" % n, tier="quick" if n < 2 else "thorough", unwind=6, unwindset=fr_rules(n), params={"data_len": n, "data": "owned"}, timeout=3000, mem_gb=24 if n > 100 else 12, mem_expect=12 if n > 100 else 3, lemma="B"))
+    return hs
+
+
+def _lemma_p(ns_q, ns_t):
+    hs = []
+    for n in ns_q + ns_t:
+        for crlf in (False, True):
+            hs.append(
+                H(
+                    "gen_frames::p_%sn%d" % ("crlf_" if crlf else "", n),
+                    "Lemma P: every well-shaped text with %d data pairs%s (all hex digits of both cases symbolic, so declared length and checksum are arbitrary): real Frame::from_bytes vs the independent decoder - outcome, precedence, error fields, re-encoding" % (n, " + CRLF" if crlf else ""),
+                    tier="quick" if n in ns_q else "thorough",
+                    unwind=6,
+                    unwindset=fr_rules(n),
+                    params={"data_pairs": n, "crlf": crlf},
+                    timeout=3000,
+                    mem_gb=16,
+                    mem_expect=4,
+                    lemma="P",
+                )
+            )
+    return hs
+
+
+def _lemma_m(ls_q, ls_t):
+    return [
+        H(
+            "gen_frames::m_l%d" % l,
+            "Lemma M: every %d-byte string WITHOUT the documented shape: real Frame::from_bytes returns InvalidFrame carrying the input" % l,
+            tier="quick" if l in ls_q else "thorough",
+            unwind=6,
+            unwindset=fr_rules(max(0, (l - 11) // 2 + 1)),
+            params={"len": l},
+            lemma="M",
+        )
+        for l in ls_q + ls_t
+    ]
+
+
+FRAME_ASSUME = COMMON_ASSUME + [
+    "the regex crate cannot be executed symbolically (kani-compiler ICE): its pattern is translated per run into a matcher (vlib/regexgen.py); Lemma R proves that matcher equivalent to the documented shape incl. named group spans; the decoder harnesses then use that shape predicate with a concrete end offset (regex stand-in, contract mode)",
+    "the translator is validated natively on every run against the real regex crate (same pattern string): match/no-match and all group spans on ~190k strings",
+    "trusted: the regex crate implements its documented leftmost-first semantics for the supported subset",
+]
+FRAME_STUBS = ["regex crate -> build/regex-shim (generated matcher + contract mode)"]
+
+
+def _c01():
+    hs = _lemma_r({"r_upto16", "r_upto32"}) + _enc(genframes.ENC_Q, genframes.ENC_T)
+    for n in genframes.RT_Q + genframes.RT_T:
+        for nl in (False, True):
+            hs.append(
+                H(
+                    "gen_frames::rt_%sn%d" % ("nl_" if nl else "", n),
+                    "rt: frame with %d data bytes (address, type, data symbolic): Frame::from_bytes(to_bytes%s(f)) == f" % (n, "_with_newline" if nl else ""),
+                    tier="quick" if n in genframes.RT_Q else "thorough",
+                    unwind=6,
+                    unwindset=fr_rules(n),
+                    params={"data_len": n, "newline": nl},
+                    timeout=3000,
+                    mem_gb=24 if n > 100 else 12,
+                    mem_expect=12 if n > 100 else 4,
+                )
+            )
+    hs.append(H("gen_frames::len_borrowed", "Data::try_new on a borrowed slice of EVERY length 0..=70000 (symbolic): accepted iff <= 255, error fields", unwind=3, params={"lengths": "0..=70000"}))
+    hs.append(H("gen_frames::len_any_usize", "Data::try_new on a slice descriptor of ANY length up to isize::MAX (never dereferenced): accepted iff <= 255", unwind=3, params={"lengths": "0..=isize::MAX"}))
+    for l in [255, 256, 1000]:
+        hs.append(H("gen_frames::len_owned%d" % l, "Data::try_new(Vec of %d bytes)" % l, unwind=3, params={"len": l}))
+    return Prop(
+        "C01",
+        ["Frame::to_bytes", "Frame::to_bytes_with_newline", "Frame::payload", "frame::checksum", "Frame::from_bytes", "frame::parse_hex", "Data::try_new", "Frame::new", "the frame regex pattern (via generated matcher)"],
+        "data lengths quick {0,1,2,3,15,16,17} (encoder) / {0,1,2,3,16} (round trip), thorough up to 255 incl. 127/128/129/254/255; per length every address, type and data byte; Data::try_new for every length up to isize::MAX (borrowed) and 255/256/1000 (owned); Lemma R for all strings up to 32 bytes (quick) / 140 bytes and the lengths around 255 and 523 (thorough)",
+        "data lengths not listed (the code is uniform in the length: stated, not proven); strings longer than 527 bytes for the shape test",
+        FRAME_STUBS,
+        FRAME_ASSUME + ["oracle: refmodel::ref_encode (upper-case hex, big-endian address, LRC chosen so that all bytes sum to 0 mod 256)"],
+        ["gen_frames::"],
+        hs,
+        obligations=[obligation_regex_validation],
+        needs_regex=True,
+    )
+
+
+def _c03():
+    hs = _lemma_r({"r_upto16", "r_upto32", "r_upto64"}) + _lemma_p(genframes.P_Q, genframes.P_T) + _lemma_m(genframes.M_Q, genframes.M_T)
+    return Prop(
+        "C03",
+        ["Frame::from_bytes", "frame::parse_hex", "frame::checksum", "Frame::payload", "Frame::to_bytes", "Data::try_new", "the frame regex pattern (via generated matcher)"],
+        "Lemma R: all byte strings up to 64 bytes quick / 140 bytes + lengths {129,255,256,257,521..527} thorough; Lemma P: data pairs {0,1,2,3} quick + {4,8,15,16,17,32} thorough, with and without CRLF, every hex digit of both cases; Lemma M: malformed strings of lengths {0,1,10,11,12,13,15} quick + {2,5,9,14,16,17,21,32} thorough; totality = R + P + M (no failing check anywhere)",
+        "strings longer than 527 bytes (max legal frame is 523); data pair counts not listed",
+        FRAME_STUBS,
+        FRAME_ASSUME + ["oracle: refmodel::ref_decode (shape, then declared length, then LRC)"],
+        ["gen_frames::"],
+        hs,
+        obligations=[obligation_regex_validation],
+        needs_regex=True,
+    )
+
+
+def _c02():
+    hs = _lemma_r({"r_upto16", "r_upto32"}) + _lemma_p(genframes.P_Q, [4, 8, 16]) + _enc([0, 1, 2, 3], [4, 8, 16], owned=False)
+    for n in genframes.K_Q + genframes.K_T:
+        for crlf in (False, True):
+            hs.append(
+                H(
+                    "gen_frames::k_%sn%d" % ("crlf_" if crlf else "", n),
+                    "Lemma K: valid encoding of ANY frame with %d data bytes%s, damaged by a single substitution (any position, any of 255 other values), deletion, duplication, adjacent swap of unequal characters or truncation (kind and position symbolic): the independent decoder rejects it or returns the original frame" % (n, " + CRLF" if crlf else ""),
+                    tier="quick" if n in genframes.K_Q else "thorough",
+                    unwind=20 + 2 * n,
+                    params={"data_len": n, "crlf": crlf},
+                    timeout=3000,
+                    mem_expect=4,
+                    lemma="K",
+                )
+            )
+    return Prop(
+        "C02",
+        ["Frame::from_bytes (Lemma P: acceptance soundness)", "Frame::to_bytes (enc)", "the frame regex pattern (Lemma R)", "reference encoder/decoder pair (Lemma K)"],
+        "compositional: (R) pattern == documented shape for strings up to 32 bytes quick; (P) real decoder == independent decoder for 0..3 (+4,8,16) data pairs, all digits; (B) real encoder == reference encoder; (K) every single-character damage of every valid encoding with 0..3 (+4,8,16) data bytes is rejected by the independent decoder or decodes to the original",
+        "frames with more data bytes than listed; multi-character damage",
+        FRAME_STUBS,
+        FRAME_ASSUME + ["the property for the real code follows from R + P + B + K; each lemma is discharged on every run"],
+        ["gen_frames::"],
+        hs,
+        obligations=[obligation_regex_validation],
+        needs_regex=True,
+    )
+
+
+PROPS["C01"] = _c01()
+PROPS["C02"] = _c02()
+PROPS["C03"] = _c03()
